@@ -362,6 +362,29 @@ impl Consume for SenderFlowState {
     }
 }
 
+impl SenderFlowState {
+    /// Waits until `count` credits are available, without taking them.
+    ///
+    /// # Cancel safety
+    ///
+    /// Nothing is changed by waiting, so dropping the future loses nothing.
+    pub(crate) async fn credit_available(&self, count: u32) {
+        loop {
+            // As in `consume`: the `Notified` is created before the credit is looked at
+            let notified = self.notifier.notified();
+            if self.state().lock.read().link_credit >= count {
+                return;
+            }
+            notified.await
+        }
+    }
+
+    /// Takes `count` credits if they are there right now; the delivery-tag otherwise `None`
+    pub(crate) fn take_credit(&self, count: u32) -> Option<[u8; 4]> {
+        consume_link_credit(&self.state().lock, count).ok()
+    }
+}
+
 cfg_transaction! {
     impl crate::util::TryConsume for SenderFlowState {
         type Error = super::error::SenderTryConsumeError;
